@@ -51,7 +51,7 @@ type ReplayResult struct {
 // modelQuery builds the failing query plus size bounds and get-value requests.
 func (e *Engine) modelQuery(o *Obligation, fn *ssa.Function, capBound int64, fixed map[string]*big.Int, cells []memCell) string {
 	fs := []*Term{o.hyp, Not(o.goal)}
-	ax := e.expandQuantifiers(fs)
+	ax := e.expandQuantifiers(fs, []*Term{Not(o.goal)})
 	p := NewPrinter()
 	for _, f := range fs {
 		p.Assert(f)
